@@ -21,12 +21,12 @@ impl Compiler {
     #[verifier::external_body]
     pub fn compile_expr(&mut self, e: Expression)
         requires roomy(old(self).chunk.instructions@)
-        ensures grown(*old(self), *final(self)), small(final(self).chunk.instructions@)
+        ensures grown(*old(self), *final(self)), small(final(self).chunk.instructions@), final(self).temp_variables@.len() == old(self).temp_variables@.len()
     { unimplemented!() }
     #[verifier::external_body]
     pub fn compile_node(&mut self, n: Node)
         requires roomy(old(self).chunk.instructions@)
-        ensures grown(*old(self), *final(self)), small(final(self).chunk.instructions@)
+        ensures grown(*old(self), *final(self)), small(final(self).chunk.instructions@), final(self).temp_variables@.len() == old(self).temp_variables@.len()
     { unimplemented!() }
 }
 pub proof fn lemma_prefix_trans(a: Ins, b: Ins, c: Ins)
@@ -93,4 +93,17 @@ pub proof fn lemma_prefix_index(a: Ins, b: Ins, i: int)
     ensures b[i] == a[i]
 {
     assert(b.take(a.len() as int)[i] == b[i]);
+}
+impl Compiler {
+    #[verifier::external_body]
+    pub fn compile_kwargs(&mut self, k: VxKwargs)
+        requires roomy(old(self).chunk.instructions@)
+        ensures grown(*old(self), *final(self)), final(self).temp_variables@.len() == old(self).temp_variables@.len(), small(final(self).chunk.instructions@)
+    { unimplemented!() }
+}
+pub proof fn lemma_prefix_push(a: Ins, b: Ins, c: Ins)
+    requires prefix_of(a, b), c.len() == b.len() + 1, c.drop_last() == b
+    ensures prefix_of(a, c)
+{
+    assert(c.take(a.len() as int) =~= b.take(a.len() as int));
 }
